@@ -143,11 +143,22 @@ pub fn proxy_outcome(c: &ProxyCase) -> Outcome {
                     clients.push(ClientRt::Lib { sock: s, to_front: ab, from_front: ba, call: None, phase: 0 });
                 } else {
                     let l = sim.link();
-                    l.raw_handshake(if cs.kind == 1 { "REQ" } else { "DEALER" }, Some(&id));
+                    // raw clients #0 and #3 announce an EMPTY Identity, as libzmq REQ / DEALER
+                    // sockets do by default: the front ROUTER must give each an identity of its own
+                    let announce_empty = i % 3 == 0;
+                    l.raw_handshake(if cs.kind == 1 { "REQ" } else { "DEALER" }, Some(if announce_empty { &[][..] } else { &id[..] }));
                     let a = sim.attach(front, &l);
-                    if !matches!(sim.run(a).await, Ok(Some(Out::Attach(Ok(_))))) {
-                        fail!(f, "C15/setup", "raw client handshake");
-                        return (f, classes);
+                    match sim.run(a).await {
+                        Ok(Some(Out::Attach(Ok(assigned)))) => {
+                            if announce_empty {
+                                classes.push("client-announces-empty-identity".into());
+                                id = assigned;
+                            }
+                        }
+                        _ => {
+                            fail!(f, "C15/setup", "raw client handshake");
+                            return (f, classes);
+                        }
                     }
                     clients.push(ClientRt::Raw { link: l, lockstep: cs.kind == 1, waiting: false });
                 }
@@ -657,6 +668,7 @@ pub fn run(ctx: &Ctx) -> (Report, PropertyMeta) {
         crate::fuzzing::campaign(ctx, &mut report, "sim", 180);
     }
     let total = report.evaluations;
+    health_abs(&mut report, "client-announces-empty-identity", 200);
     health(&mut report, "both-sides-ready-before-a-proxy-poll", total, 300);
     health(&mut report, "with-capture", total, 300);
     health(&mut report, "library-REQ-client", total, 200);
